@@ -81,6 +81,8 @@ func (eng *Engine) verifyFunc(fn *ssa.Function, props []string) (fc *FnCtx, err 
 			fc.emit(fmt.Sprintf("(declare-const %s %s)", name, fc.tc.sortOf(fv.Type())))
 			fc.assume("true", fc.tc.wf(name, fv.Type(), w))
 			fc.assume("true", not(eq(name, nilPtr)))
+			// a free variable is the address of the captured variable's own cell (go/ssa: an Alloc), never an element or field
+			fc.assume("true", "((_ is Base) "+name+")")
 			fr.bindings = append(fr.bindings, SV{t: name, typ: fv.Type()})
 		}
 		fr.params = params
@@ -115,6 +117,9 @@ func (eng *Engine) verifyFunc(fn *ssa.Function, props []string) (fc *FnCtx, err 
 		}
 		// trusted axioms (facts about dependencies' globals, e.g. io.EOF != nil) hold in the entry state
 		for _, ax := range eng.contracts.Axioms {
+			if !axiomRelevant(ax, fn) {
+				continue
+			}
 			aenv := &SpecEnv{fc: fc, vars: map[string]SV{}, cur: st, old: st, pkg: eng.pkgOfSpec(&FuncSpec{Pkg: ax.Pkg})}
 			t, e := aenv.evalBool(ax.E)
 			if e != nil {
@@ -124,8 +129,41 @@ func (eng *Engine) verifyFunc(fn *ssa.Function, props []string) (fc *FnCtx, err 
 			fc.assumes["axiom: "+ax.Text+" ("+ax.Src+")"] = true
 			fc.assume("true", t)
 		}
+		if spec != nil {
+			// auxiliary variables start at their declared initial values
+			env := fr.specEnv(st, st)
+			for _, gv := range spec.Ghosts {
+				v := env.evalSafe(gv.Init.E)
+				if v == nil {
+					eng.stale(spec, gv.Init, fmt.Errorf("cannot evaluate initial value of ghost %s", gv.Name))
+					continue
+				}
+				fc.setComp(st, "G|v|"+gv.Name, "Int", v.t)
+			}
+			for _, u := range spec.GhostUpds {
+				u.Hits = 0
+			}
+			fr.entry = st.clone()
+		}
+		if spec != nil && spec.Lockset != "" {
+			eng.checkLockset(fc, fr, fn, spec)
+		}
 		fc.cover("entry", "true")
 		fr.walk(st, params, "true")
+		if spec != nil && pass == 1 {
+			for _, u := range spec.GhostUpds {
+				if u.Hits != 1 {
+					eng.stale(spec, u.E, fmt.Errorf("ghost update anchor %q matched %d program points (need exactly 1)", u.Anchor, u.Hits))
+				}
+			}
+		}
+		if spec != nil {
+			for i, h := range spec.Hints {
+				if e := fr.hintErr[i]; e != nil && !fr.hintOK[i] {
+					eng.stale(spec, h.Clause, e)
+				}
+			}
+		}
 	}
 	return fc, nil
 }
@@ -144,6 +182,13 @@ func (fc *FnCtx) preamble() string {
 	}
 	for _, u := range fc.ufList {
 		fmt.Fprintf(&b, "(declare-fun %s %s)\n", u, fc.ufs[u])
+		if ax := fc.ufAxioms[u]; ax != "" {
+			b.WriteString(ax + "\n")
+		}
+		if u == "kvkey" || u == "kvval" {
+			// T-KV: ids of byte strings are >= 1 (0 is "no entry")
+			fmt.Fprintf(&b, "(assert (forall ((b (Array Int Int)) (o Int) (n Int)) (! (>= (%s b o n) 1) :pattern ((%s b o n)))))\n", u, u)
+		}
 	}
 	for _, d := range fc.tc.extraDecls {
 		b.WriteString(d + "\n")
@@ -213,3 +258,21 @@ func funcKeyOrLemma(fc *FnCtx) string {
 }
 
 var _ = types.Typ
+
+// axiomRelevant: axioms of trusted .spec files are assumed everywhere (as before); an axiom written in a repository
+// contract file (about that package's spec functions, e.g. the storage key space) is assumed only for functions of that
+// package and of packages importing it directly. Dropping an assumption is always sound; it keeps unrelated VCs small.
+func axiomRelevant(ax Clause, fn *ssa.Function) bool {
+	if strings.HasSuffix(strings.SplitN(ax.Src, ":", 2)[0], ".spec") || fn == nil || fn.Pkg == nil {
+		return true
+	}
+	if shortType(fn.Pkg.Pkg.Path()) == ax.Pkg {
+		return true
+	}
+	for _, imp := range fn.Pkg.Pkg.Imports() {
+		if shortType(imp.Path()) == ax.Pkg {
+			return true
+		}
+	}
+	return false
+}
